@@ -142,8 +142,12 @@ def run(ctx):
                     V = b.vects
                     g = V @ V.T
                     return [int(round(x * 1e6)) for x in (g[0, 0], g[1, 1], g[2, 2], g[1, 2], g[0, 2], g[0, 1])]
+                porg6, ok4 = to_int(ucell.box.position_cartesian_to_relative(prim.box.origin @ T) * dd * 6, 1, tol=1e-6)
+                brel = back.atoms_prop('pos', scale=True)
                 recs.append({'ev': 'centring', 'ucell': name, 'setting': st, 'patoms': patoms, 'batoms': batoms, 'basis': basis, 'dd': dd,
-                             'ongrid': ok1 and ok2 and ok3, 'pcell6': pcell6, 'npts': NP[st], 'gram': gram(ucell.box), 'bgram': gram(back.box)})
+                             'ongrid': ok1 and ok2 and ok3 and ok4, 'pcell6': pcell6, 'npts': NP[st], 'gram': gram(ucell.box), 'bgram': gram(back.box),
+                             'porg6': porg6, 'pproper': proper(T) and proper(T2), 'plammps': bool(prim.box.is_lammps_norm() and back.box.is_lammps_norm()),
+                             'binside': bool((brel > -1e-9).all() and (brel < 1 + 1e-9).all())})
             except Exception as e:
                 ctx.violation('centring conversion [%s] raised %s' % (st, excname(e)), name + ' ' + repr(e)[:300], name)
     ctx.extra['documented_refusals_accepted'] = refus
